@@ -332,6 +332,17 @@ example : determinedC Dyn.exC08fail 4 = true ∧ denClosureC Dyn.exC08fail 4 = [
    (C08_monitors_hold_dyn _ _ (Or.inr (autoRun_preach (by decide) false true 800 _ PReach.init)) 4 (by decide +kernel)
      true (fun _ => ⟨by decide +kernel, by decide +kernel, by decide +kernel⟩)).2⟩
 
+/-- non-vacuity of `C08_confluence` on the failed-delivery clause: `Dyn.exC08fail` has a complete serial run and a
+    complete run with two worker threads; both execute the tasks `2` and `3` the failed calc task `0` returned before
+    failing, both report `0` as failed and `1` as unmet -/
+example : ∃ s1 s2, Reach { Dyn.exC08fail with runner := .serial, numProc := 0 } s1 ∧ PReach Dyn.exC08fail s2 ∧
+    (s1.rpc = .halted ∧ s1.halt = .none ∧ s1.stop = false) ∧ (s2.rpc = .halted ∧ s2.halt = .none ∧ s2.stop = false) ∧
+    Ev.success 2 ∈ s1.events ∧ Ev.success 3 ∈ s1.events ∧ Ev.failure 0 .failed ∈ s1.events ∧
+    Ev.failure 1 .unmet ∈ s1.events ∧ Ev.success 2 ∈ s2.events ∧ exitCode s1 = exitCode s2 :=
+  ⟨_, _, autoRun_reach (by decide) false false 800 _ Reach.init, autoRun_preach (by decide) false true 800 _ PReach.init,
+   by decide +kernel, by decide +kernel, by decide +kernel, by decide +kernel, by decide +kernel, by decide +kernel,
+   by decide +kernel, by decide +kernel⟩
+
 /-- non-vacuity of `C08_confluence` on dynamic edges: `Dyn.exC08calc` has a complete run with two worker threads and a
     complete serial run; in the parallel run the twice-delivered `5` is executed, `1` is reported `unmet` because the
     delivered task_dep `2` failed, and the exit code is ERROR -/
